@@ -1,83 +1,196 @@
-"""Dense symbolic stand-in for kvxopt matrix/spmatrix/sparse/spdiag (entries: numbers or pysym.SR)."""
+"""
+dshim: dense stand-in for kvxopt matrix / spmatrix / sparse / spdiag and a dense linear solve,
+with entries that may be pysym symbols.  Used where the code under test does dense-style
+linear algebra (EIG, _calc_h_first).  STUB (listed in evidence); `selftest()` compares it with
+the real kvxopt on concrete data at every run.
+"""
 import numpy as np
+
+
+def _l(x):
+    if isinstance(x, M):
+        return [v for col in zip(*x.r) for v in col] if x.shape[1] != 1 else [r[0] for r in x.r]
+    if isinstance(x, np.ndarray):
+        return x.ravel().tolist()
+    return list(x)
+
+
 class M:
-    def __init__(self, rows):
+    def __init__(self, rows, shape=None):
         self.r = [list(r) for r in rows]
+        self.shape = shape if shape is not None else (len(self.r), len(self.r[0]) if self.r else 0)
+
     @property
-    def size(self): return (len(self.r), len(self.r[0]) if self.r else 0)
+    def size(self):
+        return self.shape
+
     def _bin(self, o, f):
-        if isinstance(o, M): return M([[f(a, b) for a, b in zip(ra, rb)] for ra, rb in zip(self.r, o.r)])
-        return M([[f(a, o) for a in ra] for ra in self.r])
+        if isinstance(o, M):
+            if o.shape != self.shape:
+                raise TypeError('incompatible dimensions')
+            return M([[f(a, b) for a, b in zip(ra, rb)] for ra, rb in zip(self.r, o.r)], self.shape)
+        return M([[f(a, o) for a in ra] for ra in self.r], self.shape)
+
     def __add__(self, o): return self._bin(o, lambda a, b: a + b)
     def __sub__(self, o): return self._bin(o, lambda a, b: a - b)
-    def __neg__(self): return M([[-a for a in r] for r in self.r])
+    def __neg__(self): return M([[-a for a in r] for r in self.r], self.shape)
+
     def __mul__(self, o):
         if isinstance(o, M):
-            n, k = self.size; k2, m = o.size; assert k == k2, (self.size, o.size)
-            out = [[0 for _ in range(m)] for _ in range(n)]
+            n, k = self.shape
+            k2, m = o.shape
+            if k != k2:
+                raise TypeError('incompatible dimensions')
+            out = [[0.0 for _ in range(m)] for _ in range(n)]
             for i in range(n):
                 for j in range(m):
-                    acc = 0
-                    for t in range(k): acc = acc + self.r[i][t] * o.r[t][j]
+                    acc = 0.0
+                    for t in range(k):
+                        acc = acc + self.r[i][t] * o.r[t][j]
                     out[i][j] = acc
-            return M(out)
-        return M([[a * o for a in r] for r in self.r])
-    __rmul__ = lambda self, o: M([[o * a for a in r] for r in self.r])
+            return M(out, (n, m))
+        return M([[a * o for a in r] for r in self.r], self.shape)
+
+    def __rmul__(self, o):
+        return M([[o * a for a in r] for r in self.r], self.shape)
+
     def __getitem__(self, key):
         i, j = key
         if isinstance(i, slice) or isinstance(j, slice):
-            ri = range(*i.indices(self.size[0])) if isinstance(i, slice) else [i]
-            rj = range(*j.indices(self.size[1])) if isinstance(j, slice) else [j]
-            return M([[self.r[a][b] for b in rj] for a in ri])
+            ri = list(range(*i.indices(self.shape[0]))) if isinstance(i, slice) else [i]
+            rj = list(range(*j.indices(self.shape[1]))) if isinstance(j, slice) else [j]
+            return M([[self.r[a][b] for b in rj] for a in ri], (len(ri), len(rj)))
+        if not (0 <= i < self.shape[0] and 0 <= j < self.shape[1]):
+            raise IndexError('index out of range')
         return self.r[i][j]
-    def __setitem__(self, key, v): self.r[key[0]][key[1]] = v
+
+    def __setitem__(self, key, v):
+        self.r[key[0]][key[1]] = v
+
+    @property
+    def T(self):
+        return M([list(c) for c in zip(*self.r)] if self.r and self.shape[1] else [[] for _ in range(self.shape[1])],
+                 (self.shape[1], self.shape[0]))
+
+    def trans(self):
+        return self.T
+
+    def __len__(self):
+        return self.shape[0] * self.shape[1]
+
+    def __iter__(self):
+        # kvxopt iterates in column-major order
+        for j in range(self.shape[1]):
+            for i in range(self.shape[0]):
+                yield self.r[i][j]
+
+
 def matrix(x, size=None, tc='d'):
-    if isinstance(x, M): return M(x.r)
-    x = np.asarray(x)
-    if x.ndim == 1: return M([[v] for v in x.tolist()])
-    return M(x.tolist())
+    if isinstance(x, M):
+        return M(x.r, x.shape)
+    x = np.asarray(x, dtype=object) if not isinstance(x, np.ndarray) else x
+    if x.ndim == 1:
+        return M([[v] for v in x.tolist()], (len(x), 1))
+    return M(x.tolist(), x.shape)
+
+
 def spmatrix(V, I, J, size=None, tc='d'):
-    V = [v[0] for v in V.r] if isinstance(V, M) else list(V)
-    I = [int(v[0]) for v in I.r] if isinstance(I, M) else [int(i) for i in I]
-    J = [int(v[0]) for v in J.r] if isinstance(J, M) else [int(j) for j in J]
-    if size is None: size = (max(I) + 1, max(J) + 1)
-    out = [[0 for _ in range(size[1])] for _ in range(size[0])]
-    for v, i, j in zip(V, I, J): out[i][j] = out[i][j] + v
-    return M(out)
-def sparse(x, tc='d'): return M(x.r) if isinstance(x, M) else x
+    I = [int(v) for v in _l(I)]
+    J = [int(v) for v in _l(J)]
+    V = _l(V) if not isinstance(V, (int, float)) else [V] * len(I)
+    if size is None:
+        size = (max(I) + 1 if I else 0, max(J) + 1 if J else 0)
+    out = [[0.0 for _ in range(size[1])] for _ in range(size[0])]
+    for v, i, j in zip(V, I, J):
+        if not (0 <= i < size[0] and 0 <= j < size[1]):
+            raise TypeError('index out of range')
+        out[i][j] = out[i][j] + v
+    return M(out, tuple(size))
+
+
+def sparse(x, tc='d'):
+    return M(x.r, x.shape) if isinstance(x, M) else x
+
+
 def spdiag(l):
-    n = len(l); return M([[l[i] if i == j else 0 for j in range(n)] for i in range(n)])
+    l = _l(l)
+    n = len(l)
+    return M([[l[i] if i == j else 0.0 for j in range(n)] for i in range(n)], (n, n))
+
+
 def det(A):
     n = len(A)
-    if n == 0: return 1
-    if n == 1: return A[0][0]
-    tot = 0
+    if n == 0:
+        return 1.0
+    if n == 1:
+        return A[0][0]
+    tot = 0.0
     for j in range(n):
-        minor = [row[:j] + row[j+1:] for row in A[1:]]
+        minor = [row[:j] + row[j + 1:] for row in A[1:]]
         tot = tot + ((-1) ** j) * A[0][j] * det(minor)
     return tot
+
+
+def adj(A):
+    n = len(A)
+    if n == 1:
+        return [[1.0]]
+    out = [[0.0] * n for _ in range(n)]
+    for i in range(n):
+        for j in range(n):
+            minor = [row[:j] + row[j + 1:] for k, row in enumerate(A) if k != i]
+            out[j][i] = ((-1) ** (i + j)) * det(minor)
+    return out
+
+
 def linsolve(A, B):
-    """in-place B := A^{-1} B; solution entries are fresh symbols X with A X = B (polynomial definition)"""
+    """in-place B := A^{-1} B.  Symbolic data: solution entries are fresh unknowns X with the polynomial
+    definition A X = B and det A != 0 (division-free); concrete data: numpy solve."""
     from . import pysym
-    import z3
-    n = A.size[0]
-    X = [[pysym.SR(z3.Real(f'__x{id(B)%9973}_{i}_{c}')) for c in range(B.size[1])] for i in range(n)]
-    AX = (A * M(X))
+    n = A.shape[0]
+    if n != A.shape[1] or n != B.shape[0]:
+        raise TypeError('incompatible dimensions')
+    if n == 0:
+        return
+    if all(not isinstance(v, (pysym.SR, pysym.SB)) for row in A.r + B.r for v in row):
+        sol = np.linalg.solve(np.array(A.r, dtype=float), np.array(B.r, dtype=float))
+        for i in range(n):
+            for c in range(B.shape[1]):
+                B.r[i][c] = float(sol[i][c])
+        return
+    X = [[pysym.SR(pysym.ENG.fresh('x')) for c in range(B.shape[1])] for i in range(n)]
+    AX = A * M(X, (n, B.shape[1]))
     for i in range(n):
-        for c in range(B.size[1]):
-            pysym.DEFS.append(pysym.lift(AX.r[i][c]) == pysym.lift(B.r[i][c]))
-    pysym.DEFS.append(pysym.lift(det(A.r)) != 0)
+        for c in range(B.shape[1]):
+            pysym.ENG.defs.append(pysym.lift(AX.r[i][c]) == pysym.lift(B.r[i][c]))
+    pysym.ENG.defs.append(pysym.lift(det(A.r)) != 0)
     for i in range(n):
-        for c in range(B.size[1]): B.r[i][c] = X[i][c]
-    return
-def linsolve_cramer(A, B):
-    n = A.size[0]; d = det(A.r)
-    cols = []
-    for c in range(B.size[1]):
-        sol = []
-        for k in range(n):
-            Ak = [[(B.r[i][c] if j == k else A.r[i][j]) for j in range(n)] for i in range(n)]
-            sol.append(det(Ak) / d)
-        cols.append(sol)
-    for i in range(n):
-        for c in range(B.size[1]): B.r[i][c] = cols[c][i]
+        for c in range(B.shape[1]):
+            B.r[i][c] = X[i][c]
+
+
+def selftest(seed=0, rounds=30):
+    import random
+    import kvxopt
+    rng = random.Random(seed)
+    bad = 0
+    for _ in range(rounds):
+        n = rng.randint(1, 3)
+        A = [[rng.choice([0.0, 1.0, 2.0, -1.5]) for _ in range(n)] for _ in range(n)]
+        B = [[rng.choice([0.0, 1.0, -2.0]) for _ in range(n)] for _ in range(n)]
+        a, b = M(A), M(B)
+        ka, kb = kvxopt.matrix(np.array(A)), kvxopt.matrix(np.array(B))
+        p, kp = a * b, ka * kb
+        if [round(v, 9) for v in p] != [round(v, 9) for v in kp]:
+            bad += 1
+        s, ks = a[:1, :], ka[:1, :]
+        if list(s) != list(ks) or s.size != ks.size:
+            bad += 1
+        d = spdiag([1.0, 2.0]); kd = kvxopt.spdiag([1.0, 2.0])
+        if list(d) != list(kvxopt.matrix(kd)):
+            bad += 1
+        pm = spmatrix(matrix(np.ones(n)), matrix(np.arange(n)), matrix(np.arange(n)[::-1]))
+        kpm = kvxopt.spmatrix(kvxopt.matrix(np.ones(n)), kvxopt.matrix(np.arange(n)), kvxopt.matrix(np.arange(n)[::-1]))
+        if list(pm) != list(kvxopt.matrix(kpm)):
+            bad += 1
+    return bad
